@@ -29,7 +29,7 @@ def _fam(fam, n, flips=()):
     return {"fam": fam, "len": n, "flips": [list(f) for f in flips]}
 
 
-def gen_case(seed, i):
+def gen_case(seed, i, scripted_history=False):
     rng = random.Random(stable_hash(seed, ID, i))
     base = gen.gen_cfg(rng, small=True, allow_cache=False)
     # a quarter of the histories keep ONE transform for all steps (a cache entry made with a transform
@@ -140,7 +140,7 @@ def gen_case(seed, i):
                             "act": rng.choice(["crashb", "crasha"])}
     scripted = False
     fam0 = [p_ for p_ in files if "/f0k" in p_]
-    if i % 8 == 5 and len(fam0) >= 2:
+    if scripted_history and len(fam0) >= 2:
         # scripted history (no draw): v1@t1 -> run -> v2@t2 -> run -> v3@t1 -> run -> run, one configuration throughout, no
         # interrupted run, nothing else edited: the file goes back to a modification time it carried before, with a THIRD
         # content of the same length (`cp -p` over it from a tree with uniform timestamps).  Every content change changes
@@ -159,6 +159,9 @@ def gen_case(seed, i):
 def gen_cases(tier, seed):
     for i in range(BUDGET[tier]["n"]):
         yield gen_case(seed, i)
+    # in ADDITION (the drawn histories above stay what they were): one scripted history per eight drawn ones
+    for k in range(max(BUDGET[tier]["n"] // 8, 8)):
+        yield gen_case(seed, 500000 + k, scripted_history=True)
 
 
 def shrink(case):
